@@ -272,7 +272,7 @@ class Oracle:
                 if ck not in colls:
                     colls[ck] = 1
                     ranges.append(("collection %r" % (ck,), unh(start), unh(stop), False,
-                                   (lambda i, ck=ck: i[:4] == ck), cid))
+                                   (lambda i, ck=ck: i[:4] == ck), cid, (dt, f[1])))
             elif kind == "LK":
                 enc, lo, hi = out.split(" | ")[0].split(" ")
                 ident = ("list", LIST, f[0], f[1], pz(f[2]))
@@ -281,7 +281,7 @@ class Oracle:
                 if ck not in colls:
                     colls[ck] = 1
                     ranges.append(("list %r" % (ck,), unh(lo), unh(hi), True,
-                                   (lambda i, ck=ck: i[:4] == ck and LIST_MIN <= i[4] <= LIST_MAX), cid))
+                                   (lambda i, ck=ck: i[:4] == ck and LIST_MIN <= i[4] <= LIST_MAX), cid, (LIST, f[0])))
             elif kind == "ZS":
                 b = int(f[4], 16)
                 if f[0] != "00" or is_nan(b):
@@ -296,9 +296,9 @@ class Oracle:
                 ck = ("zscore", ZSCORE, f[0], f[1])
                 if ck not in colls:
                     colls[ck] = 1
-                    ranges.append(("zset score index %r" % (ck,), zs, ze, False, (lambda i, ck=ck: i[:4] == ck), cid))
+                    ranges.append(("zset score index %r" % (ck,), zs, ze, False, (lambda i, ck=ck: i[:4] == ck), cid, (ZSCORE, f[0])))
                 ranges.append(("zset score %r %x" % (ck, b), ss, se, False,
-                               (lambda i, ck=ck, k=fkey(b): i[:4] == ck and i[4] == k), cid))
+                               (lambda i, ck=ck, k=fkey(b): i[:4] == ck and i[4] == k), cid, (ZSCORE, f[0])))
             elif kind == "BK":
                 enc, st, sp = out.split(" | ")[0].split(" ")
                 ident = ("bitmap", BITMAP, f[0], f[1], pz(f[2]))
@@ -307,7 +307,7 @@ class Oracle:
                 if ck not in colls:
                     colls[ck] = 1
                     ranges.append(("bitmap %r" % (ck,), unh(st), unh(sp), False,
-                                   (lambda i, ck=ck: i[:4] == ck and i[4] >= 0), cid))
+                                   (lambda i, ck=ck: i[:4] == ck and i[4] >= 0), cid, (BITMAP, f[0])))
             elif kind == "XT":
                 b = out.split(" | ")[1]
                 if b.startswith("ok "):
@@ -329,14 +329,14 @@ class Oracle:
                 ck = ("json", JSON, f[0])
                 if ck not in colls:
                     colls[ck] = 1
-                    ranges.append(("json table %r" % (ck,), unh(st), unh(sp), False, (lambda i, ck=ck: i[:3] == ck), cid))
+                    ranges.append(("json table %r" % (ck,), unh(st), unh(sp), False, (lambda i, ck=ck: i[:3] == ck), cid, (JSON, f[0])))
             elif kind == "TM":
                 toks = [unh(x) for x in out.split(" ")]
                 keys.append((toks[0], ("tablemeta", 10, f[0]), cid))
                 keys.append((toks[3], ("tableindexmeta", 11, f[0], int(f[1])), cid))
-                ranges.append(("table meta", toks[1], toks[2], False, (lambda i: i[0] == "tablemeta"), cid))
+                ranges.append(("table meta", toks[1], toks[2], False, (lambda i: i[0] == "tablemeta"), cid, None))
                 ranges.append(("table index meta %s" % f[1], toks[4], toks[5], False,
-                               (lambda i, it=int(f[1]): i[0] == "tableindexmeta" and i[3] == it), cid))
+                               (lambda i, it=int(f[1]): i[0] == "tableindexmeta" and i[3] == it), cid, None))
             elif kind == "XK":
                 tk, mk = out.split(" | ")[0].split(" ")
                 keys.append((unh(tk), ("exptime", 101, int(f[0]), f[1], pz(f[2])), cid))
@@ -345,7 +345,7 @@ class Oracle:
                 dt = int(f[0])
                 s, e = [unh(x) for x in out.split(" | ")[0].split(" ")]
                 ranges.append(("table %s of type %d" % (f[1], dt), s, e, False,
-                               (lambda i, dt=dt, tb=f[1]: i[1] == dt and i[2] == tb and i[0] != "meta"), cid))
+                               (lambda i, dt=dt, tb=f[1]: i[1] == dt and i[2] == tb and i[0] != "meta"), cid, (dt, f[1])))
             elif kind == "TR":
                 if f[3] != "~" or f[4] != "~":
                     continue
@@ -356,14 +356,14 @@ class Oracle:
                         lo, hi = [unh(x) for x in rg.split("..")]
                         edt = ZSCORE if n == 1 else dt
                         ranges.append(("whole-table data range of type %d table %s" % (edt, tb), lo, hi, False,
-                                       (lambda i, edt=edt, tb=tb: i[1] == edt and i[2] == tb and i[0] != "meta"), cid))
+                                       (lambda i, edt=edt, tb=tb: i[1] == edt and i[2] == tb and i[0] != "meta"), cid, (edt, tb)))
                 if b.startswith("ok "):
                     lo, hi = [unh(x) for x in b[3:].split("..")]
                     if mdt == KV:
                         pred = (lambda i, tb=tb: i[0] == "kv" and i[2] == tb)
                     else:
                         pred = (lambda i, mdt=mdt, tb=tb: i[0] == "meta" and i[1] == mdt and i[2] == tb)
-                    ranges.append(("whole-table meta range of type %d table %s" % (mdt, tb), lo, hi, False, pred, cid))
+                    ranges.append(("whole-table meta range of type %d table %s" % (mdt, tb), lo, hi, False, pred, cid, (mdt, tb)))
         # O1: distinct tuples <-> distinct engine keys
         by_key = {}
         for k, ident, cid in keys:
@@ -379,7 +379,12 @@ class Oracle:
         ks = [k for k, _ in allk]
         self.nontrivial.update((w, k) for k in ks)
         # O2/O3: each range contains exactly its own keys
-        for label, lo, hi, closed, pred, rcid in ranges:
+        buckets = {}
+        for k, ids in allk:
+            for ident, cid in ids.items():
+                buckets.setdefault((ident[1], ident[2]), []).append((k, ident, cid))
+        everything = [(k, ident, cid) for k, ids in allk for ident, cid in ids.items()]
+        for label, lo, hi, closed, pred, rcid, bucket in ranges:
             self.evals += 1
             if not (lo < hi or (closed and lo <= hi)):
                 self.fail("range-empty-" + rcid, [rcid], "range bounds not ordered: " + label, lo=lo.hex(), hi=hi.hex())
@@ -387,20 +392,22 @@ class Oracle:
             i = bisect.bisect_left(ks, lo)
             j = bisect.bisect_right(ks, hi) if closed else bisect.bisect_left(ks, hi)
             inside = set()
+            bad = None
             for k, ids in allk[i:j]:
-                inside.update(ids.keys())
-            for k, ids in allk:
                 for ident, cid in ids.items():
-                    want = pred(ident)
-                    got = ident in inside
-                    if want != got:
-                        self.fail("range-%s-%s" % ("leak" if got else "miss", cid), [rcid, cid],
-                                  ("a key of another tuple lies inside the range of " if got else "an own key lies outside the range of ") + label,
-                                  key=k.hex(), tuple=repr(ident), lo=lo.hex(), hi=hi.hex())
+                    inside.add(ident)
+                    if bad is None and not pred(ident):
+                        bad = ("leak", k, ident, cid)
+            if bad is None:
+                for k, ident, cid in (everything if bucket is None else buckets.get(bucket, [])):
+                    if pred(ident) and ident not in inside:
+                        bad = ("miss", k, ident, cid)
                         break
-                else:
-                    continue
-                break
+            if bad is not None:
+                kindb, k, ident, cid = bad
+                self.fail("range-%s-%s" % (kindb, cid), [rcid, cid],
+                          ("a key of another tuple lies inside the range of " if kindb == "leak" else "an own key lies outside the range of ") + label,
+                          key=k.hex(), tuple=repr(ident), lo=lo.hex(), hi=hi.hex())
         # O4: order inside one collection follows the order of the sub-keys
         groups = {}
         for k, ident, cid in keys:
@@ -519,8 +526,9 @@ def run(ctx):
         mismatches=len(all_mism),
         samples=samples[:6],
     ), assumptions=[
-        "NaN is outside the codec's contract: EncodeFloat does not round-trip a NaN with a clear sign bit (see C12_float_nan_refuted); "
-        "NaN inputs are run through model and code (byte-exact agreement) but excluded from the round-trip/order oracle",
+        "NaN is outside the codec's contract: EncodeFloat does not round-trip a NaN with a clear sign bit (see C12_float_nan_refuted; "
+        "witness replayed on the Go code by corpus/C12/guards.tsv g1..g4); the command layer rejects NaN scores (node.getScorePairs, "
+        "rockredis.ZIncrBy). NaN inputs are run through model and code (byte-exact agreement) but excluded from the round-trip/order oracle",
         "float64 order and equality are tied to Go's < and == by the correspondence check (FC cases), not by an IEEE-754 formalisation",
         "table names are ':'-free (what extractTableFromRedisKey produces); collection keys are at most 65535 bytes (guaranteed by "
         "common.CheckKey's 10240-byte limit and the memcomparable expansion)",
